@@ -539,7 +539,7 @@ func init() {
 			"(2) fresh -race processes that load the built-ins on 19 goroutines under GOMAXPROCS∈{1,2,4,16}; (3) the http module serving on loopback with JSON-decoding / header-setting / evalEnv handlers under concurrent Go clients while the main script keeps evaluating; " +
 			"(4) recorded histories of GetSymHash/SymHash2Str over few fresh keys. Oracles: race detector reports with a /repo frame (race-built workers), runtime `concurrent map` fatal errors (plain workers with H2 yield points), porcupine linearizability per key, functional result of every evaluation/request. " +
 			"distinct = distinct (workload, goroutine count / GOMAXPROCS / client count, round) configurations executed; non-trivial = the configuration interned new symbols concurrently (or, for histories, contained ≥1 intern∥lookup overlap)" +
-			" Added: calls with 10–80 positional arguments and standard-module imports in every workload; each fresh -race process ends with a first-time burst (8 goroutines doing every once-per-process thing at the same instant).",
+			" Added: calls with 10–80 positional arguments and standard-module imports in every workload; each fresh -race process ends with a first-time burst (8 goroutines doing every once-per-process thing at the same instant). Sixth round: the http workload's main script also continues in the server's own scope (top-level assignments while handlers run).",
 		Assumptions: []string{
 			"race detection is happens-before based: it reports races on executed paths whatever the timing, but only on executed paths; schedules are sampled, not enumerated",
 			"race reports without any /repo frame in either access stack (net/http, echo) are counted but not judged",
